@@ -242,7 +242,16 @@ func runC08(c *core.Ctx) {
 						if f == 0 && neg {
 							continue
 						}
-						expectOut(c, e, "{{ "+fl+" }}", nil, gen.FormatFloat(f), "literal-float-spelling", "a float literal denotes its decimal value", nil)
+						// a whole value is spelled as its digits; how any other value is spelled (1.2345675e+06 or 1234567.5) is not
+						// stated: it must denote the same number
+						if f == math.Trunc(f) {
+							expectOut(c, e, "{{ "+fl+" }}", nil, gen.FormatFloat(f), "literal-float-spelling", "a float literal denotes its decimal value", nil)
+						} else if r := core.Run(e, "{{ "+fl+" }}", nil); true {
+							c.Eval(1)
+							if g, err := strconv.ParseFloat(r.Out, 64); !r.OK() || err != nil || g != f {
+								c.Violate("literal-float-spelling|"+resClass(r), "a float literal denotes its decimal value", map[string]any{"source": "{{ " + fl + " }}", "expected_value": f, "observed": r.Brief()})
+							}
+						}
 					}
 					c.Distinct("intlit", lit)
 					c.Obs("literal_spelling_cases", 1)
